@@ -325,7 +325,7 @@ Section Main.
   Qed.
 
   Definition main_safe s : bool :=
-    negb (existsb (fun p => has_def p && p_mut p) s)
+    negb (existsb (fun p => has_def p && main_refuses F p) s)
     && (negb (existsb (fun p => is_bool_ann (p_ann p)) s) || match main_bogus F with [] => true | _ => false end).
 
   Lemma existsb_main_fields (g : fld V -> bool) (h : param V -> bool) s :
@@ -339,7 +339,7 @@ Section Main.
   Lemma main_setup_ok s : main_safe s = true -> setup F (main_fields F s) = Ok tt.
   Proof.
     unfold main_safe, setup. intros H. apply andb_true_iff in H as [Hm Hb]. apply negb_true_iff in Hm.
-    rewrite (existsb_main_fields _ (fun p => has_def p && p_mut p)) by reflexivity. rewrite Hm.
+    rewrite (existsb_main_fields _ (fun p => has_def p && main_refuses F p)) by reflexivity. rewrite Hm.
     rewrite main_fields_ordered. cbn [negb].
     rewrite (existsb_main_fields _ (fun p => is_bool_ann (p_ann p) && match main_bogus F with [] => false | _ => true end))
       by reflexivity.
@@ -355,12 +355,12 @@ Section Main.
 
   (* a bool parameter with a forwarded keyword the boolean action cannot take: set-up fails *)
   Lemma main_setup_bool_fails s :
-    existsb (fun p => has_def p && p_mut p) s = false ->
+    existsb (fun p => has_def p && main_refuses F p) s = false ->
     existsb (fun p => is_bool_ann (p_ann p)) s = true -> main_bogus F <> [] ->
     setup F (main_fields F s) = Err TE.
   Proof.
     intros Hm Hb Hbog. unfold setup.
-    rewrite (existsb_main_fields _ (fun p => has_def p && p_mut p)) by reflexivity. rewrite Hm.
+    rewrite (existsb_main_fields _ (fun p => has_def p && main_refuses F p)) by reflexivity. rewrite Hm.
     rewrite main_fields_ordered. cbn [negb].
     rewrite (existsb_main_fields _ (fun p => is_bool_ann (p_ann p) && match main_bogus F with [] => false | _ => true end))
       by reflexivity.
@@ -1038,17 +1038,52 @@ Qed.
 
 (* the side condition, spelled out for today's facts: no bool parameter, no unhashable default *)
 Lemma main_safe_when_plain {V} (s : sig V) :
-  existsb (fun p => is_bool_ann (p_ann p)) s = false -> existsb (fun p => has_def p && p_mut p) s = false ->
+  existsb (fun p => is_bool_ann (p_ann p)) s = false -> existsb (fun p => has_def p && main_refuses facts_gen p) s = false ->
   main_safe facts_gen s = true.
 Proof. intros H1 H2. unfold main_safe. rewrite H1, H2. reflexivity. Qed.
 
 (* once nothing bogus is forwarded any more, bool parameters are covered too *)
 Lemma main_safe_when_nothing_bogus {V} (s : sig V) :
-  main_bogus facts_gen = [] -> existsb (fun p => has_def p && p_mut p) s = false -> main_safe facts_gen s = true.
+  main_bogus facts_gen = [] -> existsb (fun p => has_def p && main_refuses facts_gen p) s = false -> main_safe facts_gen s = true.
 Proof. intros H1 H2. unfold main_safe. rewrite H1, H2. cbn [negb andb]. apply orb_true_r. Qed.
 
-Definition flag_sig : sig string := [mkparam "flag" PosOrKw ABool (Some "false") false].
-Definition mutable_sig : sig string := [mkparam "xs" PosOrKw AList (Some "[1,2]") true].
+(* ---------- list / dict / set defaults are copied (regenerated facts); only other unhashable defaults are refused ---------- *)
+Lemma gen_main_copied : f_main_copied facts_gen = [KList; KDict; KSet]. Proof. reflexivity. Qed.
+Lemma gen_cf_copied : f_cf_copied facts_gen = [KList; KDict; KSet]. Proof. reflexivity. Qed.
+Lemma main_refuses_gen {V} (p : param V) : main_refuses facts_gen p = is_mut_other (p_mut p).
+Proof. unfold main_refuses. rewrite gen_main_copied. destruct (p_mut p) as [|[| |]|]; reflexivity. Qed.
+Lemma cf_refuses_gen {V} (p : param V) : cf_refuses facts_gen p = is_mut_other (p_mut p).
+Proof. unfold cf_refuses. rewrite gen_cf_copied. destruct (p_mut p) as [|[| |]|]; reflexivity. Qed.
+
+Lemma existsb_ext_local {A} (f g : A -> bool) l : (forall x, f x = g x) -> existsb f l = existsb g l.
+Proof. intros E. induction l as [|x r IH]; [reflexivity|]. cbn [existsb]. rewrite E, IH. reflexivity. Qed.
+
+(* the full domain of main: any parameter types including bool, any defaults including list/dict/set ones; the only
+   exclusion left is an unhashable default of another kind (a dataclass instance) *)
+Lemma main_safe_full {V} (s : sig V) :
+  main_bogus facts_gen = [] ->
+  existsb (fun p => has_def p && is_mut_other (p_mut p)) s = false -> main_safe facts_gen s = true.
+Proof.
+  intros B H. apply main_safe_when_nothing_bogus; [exact B|]. rewrite <- H. apply existsb_ext_local.
+  intros p. rewrite main_refuses_gen. reflexivity.
+Qed.
+
+Lemma cf_no_refusal {V} (s : sig V) ignore over :
+  existsb (fun p => has_def p && is_mut_other (p_mut p)) s = false ->
+  existsb (fun f => fl_has_def f && fl_mut f) (cf_fields facts_gen ignore over s) = false.
+Proof.
+  intros H. apply Bool.not_true_is_false. intros X. apply existsb_exists in X as [f [Hf Hb]].
+  apply (Permutation_in _ (cf_fields_perm facts_gen gen_req_front gen_skips_ignored ignore over s)) in Hf.
+  apply in_map_iff in Hf as [p [E Hp]]. subst f. apply filter_In in Hp as [Hp _].
+  apply andb_true_iff in Hb as [Hd Hm]. cbn [cf_field fl_mut] in Hm. unfold fl_has_def in Hd. cbn [cf_field fl_default] in Hd.
+  unfold eff_default in Hd. destruct (lookup over (p_name p)); [discriminate|]. rewrite cf_refuses_gen in Hm.
+  assert (E : existsb (fun p => has_def p && is_mut_other (p_mut p)) s = true).
+  { apply existsb_exists. exists p. split; [exact Hp|]. unfold has_def. rewrite Hm. destruct (p_default p); [reflexivity | discriminate]. }
+  congruence.
+Qed.
+
+Definition flag_sig : sig string := [mkparam "flag" PosOrKw ABool (Some "false") Immut].
+Definition mutable_sig : sig string := [mkparam "cfg" PosOrKw ADc (Some "Cfg()") MutOther].
 
 (* defect #18, stated so that this file keeps building once nothing bogus is forwarded any more: IF main forwards a keyword
    the boolean action refuses, `def f(flag: bool = False)` fails at set-up and the full statement is refuted *)
@@ -1068,7 +1103,7 @@ Qed.
 
 Theorem main_refuted_mutable_default : exists (s : sig string) vals, sig_wf s = true /\ ~ main_statement s vals.
 Proof.
-  exists mutable_sig, (fun _ => "[1,2]"). split; [reflexivity|].
+  exists mutable_sig, (fun _ => "Cfg()"). split; [reflexivity|].
   unfold main_statement. cbn zeta. intros [H _]. vm_compute in H. discriminate H.
 Qed.
 
@@ -1161,7 +1196,7 @@ Proof.
   apply (partial_call_binds facts_gen gen_req_front gen_skips_ignored ignore over gen_call_site_wins); assumption.
 Qed.
 
-Definition po_sig : sig string := [mkparam "a" PosOnly AInt None false].
+Definition po_sig : sig string := [mkparam "a" PosOnly AInt None Immut].
 Theorem partial_binds_refuted :
   exists (s : sig string) vals, sig_wf s = true /\ call_kw_plain s [] = true /\ ~ call_binds_statement s [] [] vals [].
 Proof.
@@ -1193,7 +1228,7 @@ Theorem cached_refuted :
     cf_request String.eqb facts_gen s ([], 0) r = (st1, Ok c)
     /\ snd (cf_request String.eqb facts_gen s st1 r) = Ok c' /\ c <> c'.
 Proof.
-  exists [mkparam "p" PosOrKw ANone None false; mkparam "x" PosOrKw AInt (Some "1") false].
+  exists [mkparam "p" PosOrKw ANone None Immut; mkparam "x" PosOrKw AInt (Some "1") Immut].
   exists (mkreq (IgList ["p"]) None []), ([], 1), 0, 1.
   split; [vm_compute; reflexivity|]. split; [vm_compute; reflexivity | discriminate].
 Qed.
